@@ -3740,10 +3740,12 @@ class Parameters:
 
         parameter_names = watcher.parameter_names
         for parameter_name in parameter_names:
+            # (all names are checked before the watcher is registered for any)
             if parameter_name not in self_.cls.param:
                 raise ValueError("{} parameter was not found in list of "
                                  "parameters of class {}".format(parameter_name, self_.cls.__name__))
 
+        for parameter_name in parameter_names:
             if self_.self is not None and what == "value":
                 watchers = self_.self._param__private.watchers
                 if parameter_name not in watchers:
